@@ -226,15 +226,27 @@ def build_for(sh, sym):
     bufs = [mk_opresult(None, t) for _ in range(4)]
     x = IdxOp([body.args[0]])
     ops = [x]
+    if sh.get("alloc_in_body"):
+        # the buffer between stage 0 and stage 1 is allocated INSIDE the loop body, among the index computations
+        al = memref.AllocOp.get(i32, 64, [8])
+        al.results[0].type = t
+        bufs[1] = al.results[0]
+        ops.append(al)
     syncs = []
     workers = []
     orig = {}
     for k in range(sh["stages"]):
         if k % 2 == 0:
             w = memref.CopyOp(bufs[k % 4], bufs[(k + 1) % 4])
+        elif sh.get("scalar") and k == 1:
+            # the kernel also takes a SCALAR that differs per iteration: a result of the index computations, or the loop index
+            w = linalg.GenericOp([bufs[k % 4], x.results[0] if sh["scalar"] == "idx" else body.args[0]], [bufs[(k + 1) % 4]])
         else:
             w = linalg.GenericOp([bufs[k % 4]], [bufs[(k + 1) % 4]])
         workers.append(w)
+        if sh["tail"] == "late_index" and k == sh["stages"] - 1:
+            # an index computation (e.g. the output subview) only taken in front of the LAST stage, after >= 2 complete stages
+            ops.append(IdxOp([body.args[0]]))
         ops.append(w)
         orig[id(w)] = list(w.operands)
         if sh.get("two_loads") and k == 0:
@@ -242,10 +254,12 @@ def build_for(sh, sym):
             w2 = memref.CopyOp(bufs[2], bufs[3])
             ops.append(w2)
             orig[id(w2)] = list(w2.operands)
-        if not (sh["tail"] == "no_final_sync" and k == sh["stages"] - 1):
+        if not (sh["tail"] in ("no_final_sync", "unsynced_then_index") and k == sh["stages"] - 1):
             s = snax.ClusterSyncOp()
             syncs.append(s)
             ops.append(s)
+        elif sh["tail"] == "unsynced_then_index":
+            ops.append(IdxOp([body.args[0]]))
     y = scf.YieldOp()
     for o in ops + [y]:
         body.add_op(o)
@@ -256,6 +270,10 @@ def build_for(sh, sym):
 CONSTRUCT_SHAPES = ([dict(stages=S, lb="const", ub=u, step="const", tail="ok") for S in (2, 3, 4) for u in ("const", "dyn")]
                     + [dict(stages=3, lb=l, ub="const", step=s, tail="ok") for (l, s) in (("dyn", "const"), ("const", "dyn"))]
                     + [dict(stages=1, lb="const", ub="const", step="const", tail="ok"), dict(stages=3, lb="const", ub="const", step="const", tail="no_final_sync"),
+                       dict(stages=3, lb="const", ub="const", step="const", tail="late_index"), dict(stages=4, lb="const", ub="dyn", step="const", tail="late_index"),
+                       dict(stages=3, lb="const", ub="const", step="const", tail="unsynced_then_index"),
+                       dict(stages=2, lb="const", ub="const", step="const", tail="ok", scalar="idx"), dict(stages=3, lb="const", ub="dyn", step="const", tail="ok", scalar="iv"),
+                       dict(stages=2, lb="const", ub="const", step="const", tail="ok", alloc_in_body=True),
                        dict(stages=2, lb="const", ub="const", step="const", tail="ok", two_loads=True), dict(stages=3, lb="const", ub="dyn", step="const", tail="ok", two_loads=True)])
 
 
@@ -285,20 +303,22 @@ class ConstructPipeline_contract:
         S = sh["stages"]
         made = [o for e in ret if e[0] == "insert_op" for o in e[1] if isinstance(o, pipeline.PipelineOp)]
         if len(made) == 0:
-            check("a loop is only left alone for a reason: bounds not of the supported form, too few iterations, fewer than two stages, or a body not ending in a barrier",
+            check("a loop is only left alone for a reason: bounds not of the supported form, too few iterations, fewer than two stages, or a body that is not index ops + barrier-terminated stages up to the yield",
                   sh["lb"] != "const" or sh["step"] != "const" or S < 2 or sh["tail"] != "ok" or v["lb"] != 0 or v["st"] != 1
-                  or (sh["ub"] == "const" and v["ub"] < S - 1))
+                  or (sh["ub"] == "const" and v["ub"] < S - 1) or sh.get("scalar") is not None or sh.get("alloc_in_body"))
             check("nothing else is touched then", len(ret) == 0)
             return
         check("only loops counting from a CONSTANT 0 in steps of a CONSTANT 1 are pipelined (the unrolled form numbers iterations 0, 1, 2, ...)",
               sh["lb"] == "const" and sh["step"] == "const" and v["lb"] == 0 and v["st"] == 1)
         check("a loop whose known trip count is smaller than (stages - 1) is not pipelined (prologue and epilogue would run iterations that do not exist)",
               sh["ub"] != "const" or v["ub"] >= S - 1)
-        check("two or more stages, each closed by a barrier", S >= 2 and sh["tail"] == "ok")
+        check("the WHOLE body is index computations followed by two or more stages, each closed by a barrier, up to the yield (nothing is left behind in the loop next to the pipeline)", S >= 2 and sh["tail"] == "ok")
         pipe = made[0]
         inner = [o for e in ret if e[0] == "insert_op" and e[2].kind == "at_end" and e[2].anchor is pipe.body.block for o in e[1]]
         check("the pipeline holds one index op followed by one stage per barrier-terminated group, numbered in order",
               len(inner) == S + 1 and isinstance(inner[0], pipeline.IndexOp) and all(isinstance(inner[k + 1], pipeline.StageOp) and inner[k + 1].index.value.data == k for k in range(S)))
+        if len(inner) != S + 1 or not isinstance(inner[0], pipeline.IndexOp) or not all(isinstance(o, pipeline.StageOp) for o in inner[1:]):
+            return  # reported above; the clauses below speak about stage k of S
         check("the index op wraps the index computations of the body and takes the loop index", inner[0].operands[0] is v["body"].args[0]
               and any(o is v["x"] for o in inner[0].body.block.ops))
         check("stage k holds the k-th worker op", all(any(o is v["workers"][k] for o in inner[k + 1].body.block.ops) for k in range(S)))
@@ -316,10 +336,22 @@ class ConstructPipeline_contract:
                 if want is None:
                     continue
                 for j in range(len(want)):
+                    if not isinstance(want[j].type, MemRefType):
+                        continue  # buffers only; other operands are the subject of the next clause
                     pos = [p for p in range(len(blk_args)) if blk_args[p] is o.operands[j]]
                     if len(pos) != 1 or st_op.operands[pos[0]] is not want[j]:
                         ok_pairing = False
         check("every op of a stage reaches each of its buffers through the stage argument paired (by position) with that buffer", ok_pairing)
+        # a stage runs iteration (i - k): what it takes from the index computations must come through its arguments (the unroller
+        # re-binds those per stage); a direct use of the loop index or of an index computation would be the value of iteration i
+        per_iter = [v["body"].args[0]] + [r for o in inner[0].body.block.ops for r in o.results]
+        check("no op inside a stage uses the loop index or a value of the index computations directly (only through the stage's arguments)",
+              not any(any(x is p for p in per_iter) for k in range(S) for o in inner[k + 1].body.block.ops for x in o.operands))
+        # every stage instance runs its OWN copy of the index computations (for iteration i - k): a buffer they allocate is a
+        # different buffer in the producer's and in the consumer's copy
+        fresh = [r for o in inner[0].body.block.ops if isinstance(o, memref.AllocOp) for r in o.results]
+        check("no buffer allocated by the index computations is shared between two stages (each stage instance re-executes them: producer and consumer would get different buffers)",
+              not any(len([k for k in range(S) if any(x is f for x in inner[k + 1].operands)]) >= 2 for f in fresh))
         check("the barriers of the original body are erased (the unrolled form brings its own)",
               all(any(e[0] == "erase_op" and e[1] is s for e in ret) for s in v["syncs"]))
 
